@@ -22,6 +22,8 @@ pub enum Mut {
     SetByte { frac: u16, value: u8 },
     /// replace the footer (bytes between/including the newlines are rebuilt)
     Footer { text: Vec<u8>, leading_nl: bool, trailing_nl: bool },
+    /// byte `at` (0..20: magic, version, reserved) of the first / second header
+    SetHeaderByte { header: u8, at: u8, value: u8 },
 }
 
 #[derive(Debug, Clone, Hash, Serialize, Deserialize)]
@@ -87,6 +89,15 @@ pub fn apply(bytes: &mut Vec<u8>, m: &Mut) {
         Mut::SetTypeIdx { k, value } => {
             if l.ntrans > 0 {
                 let at = l.types_at.saturating_add(*k as usize % l.ntrans);
+                if at < bytes.len() {
+                    bytes[at] = *value;
+                }
+            }
+        }
+        Mut::SetHeaderByte { header, at, value } => {
+            let h = if *header == 0 { Some(0) } else { l.h2 };
+            if let Some(h) = h {
+                let at = h + (*at as usize % 20);
                 if at < bytes.len() {
                     bytes[at] = *value;
                 }
@@ -232,7 +243,8 @@ fn hostile_footer(u: &mut Unstructured) -> arbitrary::Result<Vec<u8>> {
 }
 
 fn gen_mut(u: &mut Unstructured) -> arbitrary::Result<Mut> {
-    Ok(match u.int_in_range(0..=11u8)? {
+    Ok(match u.int_in_range(0..=12u8)? {
+        12 => Mut::SetHeaderByte { header: u.int_in_range(0..=1u8)?, at: if u.ratio(2, 3)? { 4 } else { u.int_in_range(0..=19u8)? }, value: *u.choose(&[0u8, 1, b'1', b'2', b'3', b'4', b'5', 0xff])? },
         0 | 1 => Mut::SetCount { header: u.int_in_range(0..=1u8)?, field: u.int_in_range(0..=5u8)?, value: *u.choose(&[0u32, 1, 2, 255, 256, 65_535, 1 << 31, u32::MAX, 715_827_883, 536_870_912, 4_294_967_295 / 6 + 1])? },
         2 => Mut::AdjCount { header: u.int_in_range(0..=1u8)?, field: u.int_in_range(0..=5u8)?, delta: *u.choose(&[-1i8, 1, 2, -2])? },
         3 => Mut::Truncate { frac: u.arbitrary()? },
@@ -410,6 +422,9 @@ pub struct LooseBlock {
 }
 #[derive(Debug, Clone, Hash, Serialize, Deserialize)]
 pub struct LooseCase {
+    /// version byte of the second header when it differs from the first (0 = same)
+    #[serde(default)]
+    pub vb2: u8,
     pub version: u8,
     pub v1: LooseBlock,
     pub v2: LooseBlock,
@@ -522,7 +537,7 @@ impl Prop for Loose {
         for _ in 0..3 {
             ts.push(u.int_in_range(c18::TS_MIN..=c18::TS_MAX)?);
         }
-        Ok(LooseCase { version, v1, v2, footer, ts, resolve: u.ratio(1, 10)? })
+        Ok(LooseCase { vb2: if u.ratio(1, 6)? { *u.choose(&[1u8, b'1', b'2', b'3', b'4', 0xff])? } else { 0 }, version, v1, v2, footer, ts, resolve: u.ratio(1, 10)? })
     }
     fn check(c: &LooseCase, cx: &mut Cx) -> Verdict {
         for b in [&c.v1, &c.v2] {
@@ -541,7 +556,7 @@ impl Prop for Loose {
         let mut bytes = Vec::new();
         build_loose_block(&c.v1, 4, vb, &mut bytes);
         if c.version != 1 {
-            build_loose_block(&c.v2, 8, vb, &mut bytes);
+            build_loose_block(&c.v2, 8, if c.vb2 == 0 { vb } else if c.vb2 == 1 { 0 } else { c.vb2 }, &mut bytes);
             bytes.push(b'\n');
             bytes.extend_from_slice(&c.footer);
             bytes.push(b'\n');
@@ -622,6 +637,13 @@ pub fn run(env: &mut Env) {
                 }
             }
         }
+        for header in 0..2u8 {
+            for at in 0..20u8 {
+                for value in [0u8, 1, b'1', b'2', b'3', b'4', 0xff] {
+                    v.push(Case { base: base.clone(), muts: vec![Mut::SetHeaderByte { header, at, value }], ts: vec![], resolve: at == 4 });
+                }
+            }
+        }
         let step = if t || len < 400 { 1 } else { (len / 400).max(1) };
         for at in (0..len).step_by(step) {
             let frac = ((at as u64 * 65_536 + len as u64 - 1) / len.max(1) as u64).min(65_535) as u16;
@@ -643,7 +665,7 @@ pub fn run(env: &mut Env) {
         }
         v.into_iter()
     });
-    env.exhaustive_parts.push(format!("C19: {} base files x (12 header counts x 8 values, every truncation point (sampled above 400 bytes in quick), 40 transition-type bytes x 4 values, 13 hostile rule strings in both rule positions)", bases.len()));
+    env.exhaustive_parts.push(format!("C19: {} base files x (12 header counts x 8 values, every byte of the two 20-byte header prefixes (magic, version, reserved) x 7 values, every truncation point (sampled above 400 bytes in quick), 40 transition-type bytes x 4 values, 13 hostile rule strings in both rule positions)", bases.len()));
     env.run_random::<Hostile>(if t { 5_000_000 } else { 600_000 });
     env.run_random::<Loose>(if t { 3_000_000 } else { 400_000 });
     env.run_random::<Raw>(if t { 1_000_000 } else { 150_000 });
